@@ -1,5 +1,6 @@
 """C13 — query filters mean what they say: Q1-Q6 over spydrnet/util/get_*.py and patterns.py."""
 import ast
+import re
 
 from ..core import AnalysisError, norm, short, walk_local, parent_chain
 from . import register
@@ -398,6 +399,28 @@ def _yield_guard(f, y):
                 if isinstance(q, ast.FunctionDef):
                     break
             return None, "iterates the bucket %s[%s] which is never removed from %s: a later pattern that matches the same name yields its members again" % (M, k, M)
+    # path-based G1: whatever the control-flow shape (guard clause with `continue`, nested ifs, merged branches), on every path that
+    # reaches the yield inside its innermost loop the value is known not to be in S, and S.add(value) precedes the yield
+    from ..paths import stmt_paths, expand
+    inner = next((p for p in chain if isinstance(p, (ast.For, ast.While))), None)
+    ystmt = next((p for p in [y] + chain if isinstance(p, ast.stmt)), None)
+    if inner is not None and ystmt is not None:
+        hits = []
+
+        def probe(st, facts, defs=None):
+            if st is ystmt:
+                hits.append((facts, expand(x, defs or {})))
+        paths = list(stmt_paths(inner.body, frozenset(), {}, None, probe, opaque_loops=True))
+        if hits and not any(oc is None for oc, fa, df in paths):
+            cands = None
+            for fa, xx in hits:
+                here = {m.group(1) for a in fa for v_ in (x, xx) for m in [re.match(r"notin\(%s,(.*)\)$" % re.escape(v_), a)] if m}
+                cands = here if cands is None else cands & here
+            for S in sorted(cands or ()):
+                adds = [c for s_ in inner.body for c in ast.walk(s_) if isinstance(c, ast.Call) and isinstance(c.func, ast.Attribute) and c.func.attr == "add"
+                        and norm(c.func.value) == S and c.args and norm(c.args[0]) == x and c.lineno <= y.lineno]
+                if adds:
+                    return "G1", "%s not in %s ... %s.add(%s)" % (x, S, S, x)
     return None, "no de-duplication guard found around it"
 
 
